@@ -250,6 +250,46 @@ func Run(c *engine.Ctx) {
 	reserved(c)
 	enums(c)
 	attributes(c)
+	zones(c)
+}
+
+// zones: the process-local time zone is an environment answer; every single-deviation document
+// (and the date triple) must round-trip identically under every zone of the menu.
+func zones(c *engine.Ctx) {
+	c.Group("environment-timezone")
+	m := menu()
+	zs := gen.Zones()
+	c.Bound("environment-timezone", fmt.Sprintf("%d local zones x (%d single deviations + all three dates at once)", len(zs), len(m)))
+	for _, z := range zs {
+		for i := -1; i < len(m); i++ {
+			z, i := z, i
+			name := "all-dates"
+			if i >= 0 {
+				name = m[i].Name
+			}
+			c.Case(func() any { return map[string]string{"zone": z.String(), "deviation": name} }, func(t *engine.T) *engine.Violation {
+				p := &sbom.Node{Id: "a", Name: "pkg"}
+				f := &sbom.Node{Id: "b-1", Name: "file", Type: sbom.Node_FILE}
+				if i >= 0 {
+					m[i].Do(p, f)
+				} else {
+					p.ReleaseDate = timestamppb.New(time.Unix(1700000000, 0))
+					p.BuildDate = timestamppb.New(time.Unix(1600000000, 5))
+					p.ValidUntilDate = timestamppb.New(time.Date(2031, 1, 1, 0, 0, 0, 0, time.UTC))
+				}
+				nl := &sbom.NodeList{Nodes: []*sbom.Node{p, f}, Edges: []*sbom.Edge{{From: "a", Type: tc, To: []string{"b-1"}}}, RootElements: []string{"a"}}
+				var v *engine.Violation
+				gen.InZone(z, func() { v = RoundTrip(t, docOf(nl), 2) })
+				if v != nil {
+					v.Detail = "under local zone " + z.String() + ": " + v.Detail
+					return v
+				}
+				t.State("zone:" + z.String() + name)
+				t.Outcome("zone-ok")
+				return nil
+			})
+		}
+	}
 }
 
 func shapes(c *engine.Ctx) {
